@@ -554,7 +554,7 @@ func (e *episode) sideScenario(k sideKind, violate bool, depth, pos int) {
 	e.runSide(sr)
 }
 
-func runReorgEpisodes(r *vlib.Run, o *vlib.Oracle) {
+func runReorgEpisodes(r *Run, o *vlib.Oracle) {
 	ks := sideKinds()
 	nEp := r.N(2*len(ks), 12*len(ks))
 	for ep := 0; ep < nEp; ep++ {
